@@ -475,12 +475,37 @@ example : PlainPyS exW = true ∧ PlainS exW = true ∧ PlainPy exW = false ∧
   refine ⟨by decide +kernel, by decide +kernel, by decide +kernel, by decide +kernel, by decide +kernel,
     by decide +kernel⟩
 
+/-! ### the full statement is false on the current tree -/
+
 def nullableRefTy : Ty :=
   .struct [{ name := "child", ty := .ref "p" "Root" { nullable := true }, required := false }] [] none mW
 
 /-- outside the fragment, as `pyDen` demands: a nullable reference (explicit `null` raises in `from_json`) -/
 example : PlainPy [{ pkg := "p", objects := [("Root", { name := "Root", selfPkg := "p", selfName := "Root", ty := nullableRefTy })] }] = false := by
   decide +kernel
+
+def refOrNullTy : Ty :=
+  .struct [{ name := "child", ty := .disj [.ref "p" "Root" mW, tNullS] iW mW, required := false }] [] none mW
+
+def wNullRef : Schemas :=
+  [{ pkg := "p", objects := [("Root", { name := "Root", selfPkg := "p", selfName := "Root", ty := refOrNullTy })] }]
+
+/-- `Root = { child?: Root | null }` (JSON Schema `anyOf: [$ref, {type: null}]`): `{"child": null}` is a document of `Root` at the source
+    (the member is nullable) and of no fuel's `pyDen` after the Python chain — `Root.from_json(None)`
+    raises (the source-level face of `C11_counterexample_explicit_null_struct`; replayed on the real
+    front-end and passes by the row `pinnullref` of the `c11-src` stream) -/
+theorem C11_pass_widening_counterexample : ¬ C11_pass_widening_full := by
+  intro hfull
+  have hshape : (match runChain pythonChain wNullRef with
+      | .ok S' => selfRefShape S' "p" "Root" "child" | _ => false) = true := by decide +kernel
+  cases hr : runChain pythonChain wNullRef with
+  | ok S' =>
+    rw [hr] at hshape
+    obtain ⟨n', h⟩ := hfull wNullRef S' "p" "Root" 4 (.obj [("child", .null)]) hr (by decide +kernel)
+    rw [selfRefShape_pyDen S' "p" "Root" "child" hshape] at h
+    cases h
+  | err e => rw [hr] at hshape; cases hshape
+  | panic e => rw [hr] at hshape; cases hshape
 
 end C11w
 /-! ## END pass widening through the regenerated Python chain -/
